@@ -612,24 +612,28 @@ func c09R4(p *Prog, r *Report) {
 	r.Check(okRefresh, "C09.R4", "every cycle refreshes every listed channel's primaries", p.Pos(dist.Pos()), "the store into the primaries table is executed for every entry of the per-cycle map", msg)
 	// (b) per-cycle map has an entry for every processor
 	okAll := false
-	for _, l := range RangeLoops(ps) {
-		if _, f := l.OverField(); f != "processors" {
-			continue
-		}
-		Instrs(ps, func(in ssa.Instruction) {
-			mu, ok := in.(*ssa.MapUpdate)
-			if !ok || !l.Contains(mu.Block()) {
-				return
+	// the loops may sit in ProcessSegments or in a module helper it calls
+	hosts := DeepFuncs(ps, 2)
+	for _, host := range hosts {
+		for _, l := range RangeLoops(host) {
+			if _, f := l.OverField(); f != "processors" {
+				continue
 			}
-			if mu.Key == l.Idx && l.EveryIteration(mu.Block()) {
-				// the map is the one passed to Distribute
-				for _, ref := range *mu.Map.Referrers() {
-					if call, ok := ref.(*ssa.Call); ok && call.Call.StaticCallee() == dist {
-						okAll = true
+			Instrs(host, func(in ssa.Instruction) {
+				mu, ok := in.(*ssa.MapUpdate)
+				if !ok || !l.Contains(mu.Block()) {
+					return
+				}
+				if mu.Key == l.Idx && l.EveryIteration(mu.Block()) {
+					// the map is the one passed to Distribute
+					for _, ref := range *mu.Map.Referrers() {
+						if call, ok := ref.(*ssa.Call); ok && call.Call.StaticCallee() == dist {
+							okAll = true
+						}
 					}
 				}
-			}
-		})
+			})
+		}
 	}
 	r.Check(okAll, "C09.R4", "the per-cycle trigger-list map has an entry for every processor", p.Pos(ps.Pos()), "filled unconditionally in a loop over all processors, keyed by the processor index, and passed to distribution", "the map given to distribution does not hold every processor's list of this cycle")
 	// (c) merge loop: for each receiver index, appends latestPrimaries[key] for keys of that receiver's own set
@@ -702,36 +706,38 @@ func c09R4(p *Prog, r *Report) {
 	r.Check(okMerge, "C09.R4", "secondaries of a receiver = primaries of exactly its own sources", p.Pos(dist.Pos()), "merge ranges over the keys of the receiver's own set, reads the primaries table at those keys and stores under the same receiver", mergeMsg)
 	// (d) fan-out: each processor receives allSecondaries[its own index]
 	okFan := false
-	for _, l := range RangeLoops(ps) {
-		if _, f := l.OverField(); f != "processors" {
-			continue
-		}
-		Instrs(ps, func(in ssa.Instruction) {
-			g, ok := in.(*ssa.Go)
-			if !ok || !l.Contains(g.Block()) {
-				return
+	for _, host := range hosts {
+		for _, l := range RangeLoops(host) {
+			if _, f := l.OverField(); f != "processors" {
+				continue
 			}
-			var hasList, ownIdx, ownDsp bool
-			for _, a := range g.Call.Args {
-				if lk, ok := a.(*ssa.Lookup); ok {
-					hasList = true
-					if lk.Index == l.Idx {
-						ownIdx = true
+			Instrs(host, func(in ssa.Instruction) {
+				g, ok := in.(*ssa.Go)
+				if !ok || !l.Contains(g.Block()) {
+					return
+				}
+				var hasList, ownIdx, ownDsp bool
+				for _, a := range g.Call.Args {
+					if lk, ok := a.(*ssa.Lookup); ok {
+						hasList = true
+						if lk.Index == l.Idx {
+							ownIdx = true
+						}
 					}
-				}
-				if l.IsElem(a) {
-					ownDsp = true
-				}
-				if u, ok := a.(*ssa.UnOp); ok && u.Op == token.MUL {
-					if ia, ok := u.X.(*ssa.IndexAddr); ok && ia.Index == l.Idx {
+					if l.IsElem(a) {
 						ownDsp = true
 					}
+					if u, ok := a.(*ssa.UnOp); ok && u.Op == token.MUL {
+						if ia, ok := u.X.(*ssa.IndexAddr); ok && ia.Index == l.Idx {
+							ownDsp = true
+						}
+					}
 				}
-			}
-			if hasList && ownIdx && ownDsp {
-				okFan = true
-			}
-		})
+				if hasList && ownIdx && ownDsp {
+					okFan = true
+				}
+			})
+		}
 	}
 	r.Check(okFan, "C09.R4", "each processor cuts the secondaries listed for its own index", p.Pos(ps.Pos()), "the goroutine of processor i is given allSecondaries[i]", "the secondary list handed to a processor is not the one computed for its own index")
 	// (e) TriggerDataSecondary cuts from the receiver's own stream relative to its own first frame
